@@ -1,6 +1,496 @@
 package deps
 
-// Obs14 placeholder (filled in below)
-type Obs14 struct{ ID string `json:"id"` }
+import (
+	"bytes"
+	"encoding/json"
+	"fmt"
+	"io"
+	"net/http"
+	"os"
+	"path/filepath"
+	"strings"
+	"sync"
+	"time"
 
-func Run14(cf CaseFile, tmp string) Obs14 { return Obs14{ID: cf.ID} }
+	"github.com/santhosh-tekuri/jsonschema/v6"
+
+	"helm.sh/helm/v4/pkg/action"
+	chart "helm.sh/helm/v4/pkg/chart/v2"
+	"helm.sh/helm/v4/pkg/chart/v2/loader"
+	chartutil "helm.sh/helm/v4/pkg/chart/v2/util"
+	"helm.sh/helm/v4/pkg/kube"
+	rspb "helm.sh/helm/v4/pkg/release/v1"
+	"helm.sh/helm/v4/pkg/storage"
+	"helm.sh/helm/v4/pkg/storage/driver"
+
+	"verif/harness/simcluster"
+)
+
+const (
+	relName = "rel"
+	relNS   = "default"
+)
+
+// ---- request log: every HTTP request the real client sends --------------------------------
+
+type reqRec struct {
+	Method string
+	Path   string
+	Status int
+}
+
+type reqLog struct {
+	mu   sync.Mutex
+	recs []reqRec
+}
+
+func (l *reqLog) add(r reqRec) {
+	l.mu.Lock()
+	l.recs = append(l.recs, r)
+	l.mu.Unlock()
+}
+
+func (l *reqLog) from(i int) []reqRec {
+	l.mu.Lock()
+	defer l.mu.Unlock()
+	return append([]reqRec{}, l.recs[i:]...)
+}
+
+func (l *reqLog) len() int {
+	l.mu.Lock()
+	defer l.mu.Unlock()
+	return len(l.recs)
+}
+
+// logRT records every request before handing it to the simulated API server, and answers the
+// one discovery document the template function `lookup` needs.
+type logRT struct {
+	inner http.RoundTripper
+	log   *reqLog
+}
+
+const coreV1Discovery = `{"kind":"APIResourceList","apiVersion":"v1","groupVersion":"v1","resources":[` +
+	`{"name":"configmaps","singularName":"configmap","namespaced":true,"kind":"ConfigMap","verbs":["create","delete","get","list","patch","update"]}]}`
+
+// the discovery documents the real client asks for (lookup: /api/v1; cache invalidation after CRDs: /api, /apis)
+var discoveryDocs = map[string]string{
+	"/api/v1": coreV1Discovery,
+	"/api":    `{"kind":"APIVersions","versions":["v1"],"serverAddressByClientCIDRs":[]}`,
+	"/apis":   `{"kind":"APIGroupList","apiVersion":"v1","groups":[]}`,
+}
+
+func (t *logRT) RoundTrip(req *http.Request) (*http.Response, error) {
+	if doc, ok := discoveryDocs[req.URL.Path]; ok && req.Method == http.MethodGet {
+		t.log.add(reqRec{req.Method, req.URL.Path, 200})
+		return &http.Response{StatusCode: 200, Status: "200 OK", Proto: "HTTP/1.1", ProtoMajor: 1, ProtoMinor: 1,
+			Header: http.Header{"Content-Type": []string{"application/json"}},
+			Body:   io.NopCloser(strings.NewReader(doc)), ContentLength: int64(len(doc)), Request: req}, nil
+	}
+	resp, err := t.inner.RoundTrip(req)
+	st := 0
+	if resp != nil {
+		st = resp.StatusCode
+	}
+	t.log.add(reqRec{req.Method, req.URL.Path, st})
+	return resp, err
+}
+
+// ---- storage call log -------------------------------------------------------------------------
+
+type countDriver struct {
+	D      driver.Driver
+	mu     sync.Mutex
+	writes []string
+	reads  int
+}
+
+func (c *countDriver) w(s string) { c.mu.Lock(); c.writes = append(c.writes, s); c.mu.Unlock() }
+func (c *countDriver) r()         { c.mu.Lock(); c.reads++; c.mu.Unlock() }
+func (c *countDriver) nw() int    { c.mu.Lock(); defer c.mu.Unlock(); return len(c.writes) }
+
+func (c *countDriver) Name() string { return c.D.Name() }
+func (c *countDriver) Create(k string, r *rspb.Release) error {
+	c.w("create " + k)
+	return c.D.Create(k, r)
+}
+func (c *countDriver) Update(k string, r *rspb.Release) error {
+	c.w("update " + k)
+	return c.D.Update(k, r)
+}
+func (c *countDriver) Delete(k string) (*rspb.Release, error) { c.w("delete " + k); return c.D.Delete(k) }
+func (c *countDriver) Get(k string) (*rspb.Release, error)    { c.r(); return c.D.Get(k) }
+func (c *countDriver) List(f func(*rspb.Release) bool) ([]*rspb.Release, error) {
+	c.r()
+	return c.D.List(f)
+}
+func (c *countDriver) Query(l map[string]string) ([]*rspb.Release, error) { c.r(); return c.D.Query(l) }
+
+// ---- kube client: the real one, readiness scripted ----------------------------------------------
+
+type okClient struct{ *kube.Client }
+
+func (c *okClient) GetWaiter(_ kube.WaitStrategy) (kube.Waiter, error) { return okWaiter{}, nil }
+
+type okWaiter struct{}
+
+func (okWaiter) Wait(kube.ResourceList, time.Duration) error            { return nil }
+func (okWaiter) WaitWithJobs(kube.ResourceList, time.Duration) error    { return nil }
+func (okWaiter) WaitForDelete(kube.ResourceList, time.Duration) error   { return nil }
+func (okWaiter) WatchUntilReady(kube.ResourceList, time.Duration) error { return nil }
+
+// env is one simulated cluster with one release store (Secrets in that cluster).
+type env struct {
+	sim   *simcluster.Sim
+	log   *reqLog
+	store *countDriver
+}
+
+func newEnv() *env {
+	e := &env{sim: simcluster.New(), log: &reqLog{}}
+	e.sim.Put(simcluster.Key{Group: "", Version: "v1", Resource: "namespaces", Name: relNS}, map[string]interface{}{"metadata": map[string]interface{}{}})
+	return e
+}
+
+func (e *env) config() *action.Configuration {
+	f := &simcluster.Factory{RT: &logRT{inner: e.sim.Transport(1), log: e.log}, Namespace: relNS}
+	cs, _ := f.KubernetesClientSet()
+	if e.store == nil {
+		e.store = &countDriver{}
+	}
+	e.store.D = driver.NewSecrets(cs.CoreV1().Secrets(relNS))
+	return &action.Configuration{
+		RESTClientGetter: &simcluster.Getter{F: f},
+		Releases:         storage.Init(e.store),
+		KubeClient:       &okClient{&kube.Client{Factory: f, Namespace: relNS}},
+		Capabilities:     chartutil.DefaultCapabilities.Copy(),
+		HookOutputFunc:   func(_, _, _ string) io.Writer { return io.Discard },
+	}
+}
+
+// ---- observations ---------------------------------------------------------------------------------
+
+// OpObs is what one operation on one case did.
+type OpObs struct {
+	Mode        string   `json:"mode"` // install | dryrun | template | upgrade | upgradedry | lint
+	Skip        bool     `json:"skip"`
+	Ok          bool     `json:"ok"`
+	SchemaErr   bool     `json:"schemaErr"` // it failed with a schema rejection
+	Named       []string `json:"named"`     // chart names the rejection lists
+	Writes      int      `json:"writes"`    // POST/PUT/PATCH/DELETE requests that reached the API server
+	CrdWrites   int      `json:"crdWrites"` // ... of which POSTs of CustomResourceDefinitions
+	StoreWrites int      `json:"storeWrites"`
+	Renders     int      `json:"renders"` // GETs caused by the `lookup` of the root probe template
+	Requests    int      `json:"requests"`
+	Err         string   `json:"err"`
+	First       string   `json:"first"` // the first write request, for the report
+}
+
+type LibVerdict struct {
+	P     []string `json:"P"`
+	Valid bool     `json:"valid"`
+	Msg   string   `json:"msg"`
+}
+
+// Obs14 is one observation line for SchemaObs.tla.
+type Obs14 struct {
+	ID      string          `json:"id"`
+	Shape   string          `json:"shape"`
+	Case    json.RawMessage `json:"case"`
+	PrepOk  bool            `json:"prepOk"`
+	PrepErr string          `json:"prepErr"`
+	Enabled [][]string      `json:"enabled"` // instances left after ProcessDependencies
+	Finals  []Seen          `json:"finals"`  // their final (coalesced) values
+	Lib     []LibVerdict    `json:"lib"`     // the schema library's verdict on (schema, final values) of each instance with a schema
+	Odd     int             `json:"odd"`     // value tokens outside the family of Schema.tla
+	Ops     []OpObs         `json:"ops"`
+}
+
+func libValidate(schema []byte, v map[string]interface{}) (bool, string) {
+	doc, err := jsonschema.UnmarshalJSON(bytes.NewReader(schema))
+	if err != nil {
+		return false, "unmarshal: " + err.Error()
+	}
+	c := jsonschema.NewCompiler()
+	if err := c.AddResource("file:///values.schema.json", doc); err != nil {
+		return false, "add: " + err.Error()
+	}
+	s, err := c.Compile("file:///values.schema.json")
+	if err != nil {
+		return false, "compile: " + err.Error()
+	}
+	if err := s.Validate(v); err != nil {
+		return false, err.Error()
+	}
+	return true, ""
+}
+
+func oddTokens(ls []Leaf) int {
+	n := 0
+	for _, l := range ls {
+		switch {
+		case l.V == "true", l.V == "false", l.V == "{}", strings.HasPrefix(l.V, "s:"):
+		case l.V == "n:0", l.V == "n:1", l.V == "n:2", l.V == "n:3":
+		default:
+			n++
+		}
+	}
+	return n
+}
+
+func walkEnabled(ch *chart.Chart, prefix string, vals map[string]interface{}, visit func(inst string, c *chart.Chart, v map[string]interface{})) {
+	visit(prefix, ch, vals)
+	for _, d := range ch.Dependencies() {
+		p := d.Name()
+		if prefix != "" {
+			p = prefix + "/" + d.Name()
+		}
+		sub, _ := asMap(vals[d.Name()])
+		if sub == nil {
+			sub = map[string]interface{}{}
+		}
+		walkEnabled(d, p, sub, visit)
+	}
+}
+
+func isWrite(m string) bool {
+	return m == "POST" || m == "PUT" || m == "PATCH" || m == "DELETE"
+}
+
+func (o *OpObs) fillLog(recs []reqRec, storeWrites int) {
+	o.Requests = len(recs)
+	for _, r := range recs {
+		if isWrite(r.Method) {
+			o.Writes++
+			if o.First == "" {
+				o.First = r.Method + " " + r.Path
+			}
+			if r.Method == "POST" && strings.Contains(r.Path, "customresourcedefinitions") {
+				o.CrdWrites++
+			}
+		}
+		if r.Method == "GET" && strings.HasSuffix(r.Path, "/configmaps/render-probe") {
+			o.Renders++
+		}
+	}
+	o.StoreWrites = storeWrites
+}
+
+func (o *OpObs) fillErr(c *Case, err error) {
+	if err == nil {
+		o.Ok = true
+		return
+	}
+	o.Err = err.Error()
+	if strings.Contains(o.Err, schemaErrPrefix) {
+		o.SchemaErr = true
+		o.Named = namedCharts(c, o.Err)
+	}
+}
+
+var baseFiles = []*loader.BufferedFile{
+	{Name: "Chart.yaml", Data: []byte("apiVersion: v2\nname: root\nversion: 0.0.1\n")},
+	{Name: "values.yaml", Data: []byte("{}\n")},
+	{Name: "templates/base.yaml", Data: []byte("apiVersion: v1\nkind: ConfigMap\nmetadata:\n  name: base\ndata:\n  k: v\n")},
+}
+
+func newInstall(cfg *action.Configuration, skip bool) *action.Install {
+	in := action.NewInstall(cfg)
+	in.ReleaseName, in.Namespace = relName, relNS
+	in.Timeout = 5 * time.Second
+	in.SkipSchemaValidation = skip
+	return in
+}
+
+// lintOp runs helm lint on the chart tree written under dir.
+func lintOp(c *Case, dir string, skip bool, vals map[string]interface{}) (o OpObs) {
+	o = OpObs{Mode: "lint", Skip: skip, Named: []string{}}
+	defer func() {
+		if r := recover(); r != nil {
+			o.Ok = false
+			o.Err = fmt.Sprintf("PANIC: %v", r)
+		}
+	}()
+	l := action.NewLint()
+	l.Namespace = relNS
+	l.SkipSchemaValidation = skip
+	res := l.Run([]string{dir}, vals)
+	msgs := []string{}
+	for _, m := range res.Messages {
+		if m.Severity >= 3 { // support.ErrorSev
+			txt := m.Path + ": " + m.Err.Error()
+			msgs = append(msgs, txt)
+			if strings.Contains(txt, schemaErrPrefix) {
+				o.SchemaErr = true
+				o.Named = append(o.Named, namedCharts(c, m.Err.Error())...)
+			} else if m.Path == "values.yaml" && strings.Contains(txt, "- at '") {
+				// the values.yaml rule validates the linted chart's own values file against its schema
+				o.SchemaErr = true
+			}
+		}
+	}
+	o.Ok = len(res.Errors) == 0
+	o.Err = strings.Join(msgs, " || ")
+	return o
+}
+
+// clusterOps runs a dry run and then the real operation in ONE fresh simulated cluster (a dry run leaves
+// nothing behind): kind = "install" gives (dryrun, install), kind = "upgrade" gives (upgradedry, upgrade)
+// after a baseline install of a trivial chart.
+func clusterOps(c *Case, kind string, skip bool, vals func() map[string]interface{}) []OpObs {
+	names := []string{"dryrun", "install"}
+	if kind == "upgrade" {
+		names = []string{"upgradedry", "upgrade"}
+	}
+	out := []OpObs{}
+	e := newEnv()
+	based := ""
+	if kind == "upgrade" {
+		base, berr := loader.LoadFiles(baseFiles)
+		if berr == nil {
+			_, berr = newInstall(e.config(), false).Run(base, map[string]interface{}{})
+		}
+		if berr != nil {
+			based = "baseline install: " + berr.Error()
+		}
+	}
+	for i, mode := range names {
+		o := OpObs{Mode: mode, Skip: skip, Named: []string{}}
+		func() {
+			defer func() {
+				if r := recover(); r != nil {
+					o.Ok = false
+					o.Err = fmt.Sprintf("PANIC: %v", r)
+				}
+			}()
+			if based != "" {
+				o.Err = based
+				return
+			}
+			ch, err := c.Load(BuildOpts{Lookup: true})
+			if err != nil {
+				o.Err = "load: " + err.Error()
+				return
+			}
+			mark, smark := e.log.len(), 0
+			if e.store != nil {
+				smark = e.store.nw()
+			}
+			if kind == "install" {
+				in := newInstall(e.config(), skip)
+				if i == 0 {
+					in.DryRun = true
+					in.DryRunOption = "server"
+				}
+				_, err = in.Run(ch, vals())
+			} else {
+				up := action.NewUpgrade(e.config())
+				up.Namespace = relNS
+				up.Timeout = 5 * time.Second
+				up.SkipSchemaValidation = skip
+				if i == 0 {
+					up.DryRun = true
+					up.DryRunOption = "server"
+				}
+				_, err = up.Run(relName, ch, vals())
+			}
+			o.fillErr(c, err)
+			o.fillLog(e.log.from(mark), e.store.nw()-smark)
+		}()
+		out = append(out, o)
+	}
+	return out
+}
+
+func templateOp(c *Case, skip bool, vals map[string]interface{}) (o OpObs) {
+	o = OpObs{Mode: "template", Skip: skip, Named: []string{}}
+	defer func() {
+		if r := recover(); r != nil {
+			o.Ok = false
+			o.Err = fmt.Sprintf("PANIC: %v", r)
+		}
+	}()
+	ch, err := c.Load(BuildOpts{Lookup: true})
+	if err != nil {
+		o.Err = "load: " + err.Error()
+		return o
+	}
+	in := templateInstall()
+	in.SkipSchemaValidation = skip
+	_, err = in.Run(ch, vals)
+	o.fillErr(c, err)
+	return o
+}
+
+// Run14 runs one C14 case on the real code.
+func Run14(cf CaseFile, tmp string) Obs14 {
+	o := Obs14{ID: cf.ID, Shape: cf.Shape, Case: cf.Case, Enabled: [][]string{}, Finals: []Seen{}, Lib: []LibVerdict{}, Ops: []OpObs{}}
+	var c Case
+	if err := json.Unmarshal(cf.Case, &c); err != nil {
+		o.PrepErr = "bad case: " + err.Error()
+		return o
+	}
+	func() {
+		defer catch(&o.PrepErr)
+		vals, err := c.UserValues(tmp)
+		if err != nil {
+			o.PrepErr = "values: " + err.Error()
+			return
+		}
+		ch, err := c.Load(BuildOpts{})
+		if err != nil {
+			o.PrepErr = "load: " + err.Error()
+			return
+		}
+		if err := chartutil.ProcessDependencies(ch, vals); err != nil {
+			o.PrepErr = "ProcessDependencies: " + err.Error()
+			return
+		}
+		// the final values, with the gate switched off
+		rv, err := chartutil.ToRenderValuesWithSchemaValidation(ch, vals, chartutil.ReleaseOptions{Name: relName, Namespace: relNS, Revision: 1, IsInstall: true}, nil, true)
+		if err != nil {
+			o.PrepErr = "ToRenderValues: " + err.Error()
+			return
+		}
+		top, _ := asMap(map[string]interface{}(rv["Values"].(chartutil.Values)))
+		insts := c.Instances()
+		walkEnabled(ch, "", top, func(inst string, _ *chart.Chart, v map[string]interface{}) {
+			ls := Flatten(v)
+			o.Enabled = append(o.Enabled, splitInst(inst))
+			o.Finals = append(o.Finals, Seen{P: splitInst(inst), Leaves: ls})
+			o.Odd += oddTokens(ls)
+			if def, ok := c.Charts[insts[inst]]; ok && len(def.Schema) > 0 {
+				valid, msg := libValidate(SchemaJSON(def.Schema), v)
+				o.Lib = append(o.Lib, LibVerdict{P: splitInst(inst), Valid: valid, Msg: msg})
+			}
+		})
+		o.PrepOk = true
+	}()
+	vals := func() map[string]interface{} { // a fresh copy for every operation
+		v, err := c.UserValues(tmp)
+		if err != nil {
+			panic("values: " + err.Error())
+		}
+		return v
+	}
+	allValid := true
+	for _, v := range o.Lib {
+		allValid = allValid && v.Valid
+	}
+	lintDir, lerr := c.WriteDir(filepath.Join(tmp, "lint"), BuildOpts{Lookup: true})
+	defer os.RemoveAll(filepath.Join(tmp, "lint"))
+	for _, skip := range []bool{false, true} {
+		o.Ops = append(o.Ops, templateOp(&c, skip, vals()))
+		if skip && allValid {
+			// nothing for the option to skip: the cluster operations and lint add no information
+			continue
+		}
+		o.Ops = append(o.Ops, clusterOps(&c, "install", skip, vals)...)
+		o.Ops = append(o.Ops, clusterOps(&c, "upgrade", skip, vals)...)
+		if lerr != nil {
+			o.Ops = append(o.Ops, OpObs{Mode: "lint", Skip: skip, Named: []string{}, Err: "writedir: " + lerr.Error()})
+		} else {
+			o.Ops = append(o.Ops, lintOp(&c, lintDir, skip, vals()))
+		}
+	}
+	return o
+}
